@@ -39,21 +39,25 @@ func genCase(t *rapid.T) *fetchCase {
 	if rapid.IntRange(0, 3).Draw(t, "hasbase") == 0 {
 		c.NB = rapid.OneOf(rapid.SampledFrom([]int{1, 2, 129}), rapid.IntRange(1, 4)).Draw(t, "nb")
 	}
-	mode := rapid.IntRange(0, 3).Draw(t, "failmode") // 0 none, 1 few, 2 many, 3 all
+	mode := rapid.IntRange(0, 4).Draw(t, "failmode") // 0 none, 1 few, 2 many, 3 all, 4 the whole first chunk (128) fails
 	draw := func(n int, label string) ([]int, []int, []int, []bool) {
 		f, da, db, u := make([]int, n), make([]int, n), make([]int, n), make([]bool, n)
 		for i := range f {
 			switch mode {
 			case 1:
 				if rapid.IntRange(0, 9).Draw(t, label+"f") == 0 {
-					f[i] = rapid.IntRange(1, 4).Draw(t, label+"kind")
+					f[i] = rapid.IntRange(1, 5).Draw(t, label+"kind")
 				}
 			case 2:
 				if rapid.Bool().Draw(t, label+"f") {
-					f[i] = rapid.IntRange(1, 4).Draw(t, label+"kind")
+					f[i] = rapid.IntRange(1, 5).Draw(t, label+"kind")
 				}
 			case 3:
-				f[i] = rapid.IntRange(1, 4).Draw(t, label+"kind")
+				f[i] = rapid.IntRange(1, 5).Draw(t, label+"kind")
+			case 4:
+				if i < 128 && n > 128 {
+					f[i] = rapid.IntRange(1, 5).Draw(t, label+"kind")
+				}
 			}
 			da[i] = rapid.IntRange(0, 3).Draw(t, label+"da")
 			db[i] = rapid.IntRange(0, 3).Draw(t, label+"db")
@@ -162,7 +166,7 @@ func run(c *fetchCase, delays []int, skipFailed bool) outcome {
 					tr.resp[path] = func() (*http.Response, error) { return nil, fmt.Errorf("scripted: connection refused") }
 				case 2:
 					tr.resp[path] = func() (*http.Response, error) { return httpResp(200, []byte("<html>not a profile</html>")) }
-				case 3:
+				case 3, 5:
 					tr.resp[path] = func() (*http.Response, error) { return httpResp(500, []byte("boom")) }
 				default:
 					tr.resp[path] = func() (*http.Response, error) { return httpResp(404, []byte("nope")) }
@@ -172,7 +176,7 @@ func run(c *fetchCase, delays []int, skipFailed bool) outcome {
 				switch fail {
 				case 0:
 					os.WriteFile(name, serial(p), 0o644)
-				case 2, 3:
+				case 2, 3, 5:
 					os.WriteFile(name, []byte("garbage that is no profile"), 0o644)
 				default: // missing file
 				}
@@ -192,6 +196,11 @@ func run(c *fetchCase, delays []int, skipFailed bool) outcome {
 				var b bytes.Buffer
 				bad.WriteUncompressed(&b)
 				s.Data = b.Bytes()
+			case 5:
+				// the plug-in hands over a profile object that is not valid (two values for one sample type)
+				bad := mkProfile(i, base)
+				bad.Sample[0].Value = []int64{1, 2}
+				s.Prof = bad
 			}
 			srcs[name] = s
 		}
@@ -390,5 +399,5 @@ func sorted(s []string) []string {
 
 func TestPropFetch(t *testing.T) {
 	vk.Main(t, vk.Spec[fetchCase]{ID: "C16", Facet: "fetch", Quick: 600, Thorough: 3000, Gen: genCase, Check: check, Journal: true,
-		Rule: "source lists of 1..300 (sizes biased to 1,2,127,128,129,130,255,256,257,300) and base lists of 0..129 (-base or -diff_base), every source with its own comment, header and stack; failure subsets (none/few/many/all) of kinds {fetcher error or missing file, garbage body, invalid-but-decodable profile or HTTP 500, HTTP 404}; through the Fetcher plug-in or through pprof's own file/HTTP fetcher with a scripted RoundTripper; per-source delays perturb the completion order; oracle: canonical sum of exactly the successful sources minus bases, comments and header precedence in command-line order, one error line per failed source plus the 'Fetched k of n' line, error iff nothing (or no base) could be fetched, byte-identical output under a second completion order and with the failing sources left off; non-trivial = >=2 successes and >=1 failure, or a list crossing 128"})
+		Rule: "source lists of 1..300 (sizes biased to 1,2,127,128,129,130,255,256,257,300) and base lists of 0..129 (-base or -diff_base), every source with its own comment, header and stack; failure subsets (none/few/many/all/the whole first chunk of 128) of kinds {fetcher error or missing file, garbage body, invalid-but-decodable profile or HTTP 500, HTTP 404, invalid profile object handed over by the plug-in}; through the Fetcher plug-in or through pprof's own file/HTTP fetcher with a scripted RoundTripper; per-source delays perturb the completion order; oracle: canonical sum of exactly the successful sources minus bases, comments and header precedence in command-line order, one error line per failed source plus the 'Fetched k of n' line, error iff nothing (or no base) could be fetched, byte-identical output under a second completion order and with the failing sources left off; non-trivial = >=2 successes and >=1 failure, or a list crossing 128"})
 }
